@@ -441,7 +441,9 @@ func main() {
 	for _, l := range printed {
 		fmt.Println(l)
 	}
-	fmt.Printf("property=%s tier=%s functions=%d obligations=%d discharged=%d known=%d violations=%d wall=%.1fs\n", *prop, *tier, len(reports), len(order), discharged, knownHit, violations, time.Since(t0).Seconds())
+	// obligations listed as known findings are reported separately (known=) and are not part of the proof record:
+	// the counts printed here are the ones written to the evidence file
+	fmt.Printf("property=%s tier=%s functions=%d obligations=%d discharged=%d known=%d violations=%d wall=%.1fs\n", *prop, *tier, len(reports), len(order)-knownHit, discharged, knownHit, violations, time.Since(t0).Seconds())
 	if violations > 0 {
 		os.Exit(1)
 	}
@@ -506,6 +508,9 @@ func writeEvidence(path, prop, tier string, seed int, pc *PropCfg, x *Exec, repo
 	sort.Strings(notes)
 	var samples []interface{}
 	for i, o := range obls {
+		if o["status"] == "known-finding" {
+			continue
+		}
 		if i < 6 || o["status"] != "discharged" {
 			samples = append(samples, o)
 		}
@@ -516,6 +521,16 @@ func writeEvidence(path, prop, tier string, seed int, pc *PropCfg, x *Exec, repo
 			known++
 		}
 	}
+	// the proof record lists the obligations of the proof; obligations that fail as listed known findings are
+	// kept apart (they are not claimed as proved)
+	var proofObls, knownObls []map[string]interface{}
+	for _, o := range obls {
+		if o["status"] == "known-finding" {
+			knownObls = append(knownObls, o)
+		} else {
+			proofObls = append(proofObls, o)
+		}
+	}
 	cov := map[string]interface{}{
 		// obligations that fail because of a listed known finding are reported separately: they are
 		// not claimed as proved and not counted among the obligations of this proof
@@ -523,7 +538,8 @@ func writeEvidence(path, prop, tier string, seed int, pc *PropCfg, x *Exec, repo
 		"checker_cmd":   fmt.Sprintf("/verif/check %s %s", prop, tier),
 		"trusted_base":  trusted,
 		"functions":     fns,
-		"obligation_list": obls,
+		"obligation_list": proofObls,
+		"known_finding_obligations": knownObls,
 		"samples":       samples,
 		"explanation":   "every obligation is one SMT validity query per symbolic path through the real function (go/ssa of /repo's working tree); discharged = all path queries unsat",
 		"bounded":       pc.Bounded,
